@@ -39,8 +39,10 @@ def sh(cmd, cwd=None, timeout=None, env=None):
     except subprocess.TimeoutExpired as e:
         return 124, (e.stdout or "") if isinstance(e.stdout, str) else ""
 
-def run_check(wt, outdir, cid, workers):
+def run_check(wt, outdir, cid, workers, delta=0):
     env = dict(ENV, VERIF_REPO=wt, VERIF_OUT=outdir, VERIF_WORKERS=str(workers))
+    if delta:
+        env["VERIF_DEPTH_DELTA"] = str(delta)
     code, out = sh([os.path.join(VERIF, "bin/check.sh"), cid, "quick"], env=env, timeout=900)
     clause = ""
     for line in out.splitlines():
@@ -79,17 +81,21 @@ def lane(k, q, args, lock, resf):
                     res["status"] = "survived"
                     res["ran"] = []
                     todo = list(m.get("checks") or order_for(m["file"]))
-                    for cid in todo:
-                        c, clause = run_check(wt, outdir, cid, args.workers)
-                        res["ran"].append(cid)
-                        if c == 1:
-                            res["status"] = "detected"; res["by"] = cid; res["clause"] = clause
+                    # first pass one level shallower (cheap), second pass at the registered depth
+                    for delta in (-1, 0):
+                        for cid in todo:
+                            c, clause = run_check(wt, outdir, cid, args.workers, delta)
+                            res["ran"].append(cid + ("-shallow" if delta else ""))
+                            if c == 1:
+                                res["status"] = "detected"; res["by"] = cid; res["clause"] = clause; res["shallow"] = bool(delta)
+                                break
+                            if c == 2:
+                                res["status"] = "harness-nocompile"
+                                break
+                            if c == 124:
+                                res.setdefault("timeouts", []).append(cid)
+                        if res["status"] != "survived":
                             break
-                        if c == 2:
-                            res["status"] = "harness-nocompile"
-                            break
-                        if c == 124:
-                            res.setdefault("timeouts", []).append(cid)
                     if res["status"] == "survived" and args.phase2:
                         c, out = sh(["go", "test", "-vet=off", "-count=1", "-timeout", "25m", "./..."], cwd=wt, timeout=1800)
                         res["suite"] = "pass" if c == 0 else "fail"
